@@ -58,5 +58,5 @@ void h_IsCollinear(void) { PointT p1, p2, p3; IsCollinear(p1, p2, p3); VF_CANARY
 //@run name=TriSign entry=h_TriSign enforce=TriSign flags=SAFETY timeout=60
 //@run name=ProductsAreEqual entry=h_ProductsAreEqual enforce=ProductsAreEqual replace=vf_mul128 flags=SAFETY timeout=120
 //@run name=CrossProductSign entry=h_CrossProductSign enforce=CrossProductSign replace=vf_mul128 flags=SAFETY timeout=120
-//@run name=CrossProductSign.z entry=h_CrossProductSign enforce=CrossProductSign replace=vf_mul128 flags=SAFETY defs=USINGZ timeout=120 tier=thorough
+//@run name=CrossProductSign.z entry=h_CrossProductSign enforce=CrossProductSign replace=vf_mul128 flags=SAFETY defs=USINGZ timeout=120 props=C18,C15,C10
 //@run name=IsCollinear entry=h_IsCollinear enforce=IsCollinear replace=vf_mul128 flags=SAFETY timeout=120
